@@ -25,6 +25,7 @@ def obsJ : Obs → Json
   | .raisesChildProcessError => jArr [jStr "cpe"]
   | .raisesOther => jArr [jStr "other"]
   | .returnsOther => jArr [jStr "retother"]
+  | .cancelled => jArr [jStr "cancelled"]
 
 def locOut (l : Loc) : Json :=
   match l.st.out with
@@ -52,14 +53,33 @@ def runRounds (sc : List Sched) (cs : List (Callee × Bool)) (hold : List Nat) (
     let gH := if hold.isEmpty then g1 else scheduleH hold prog sc fuel rem g0
     runRounds sc cs hold fuel rest (off + n) g1 (st ++ blockedBehind prog hold gH) (fr || (!hold.isEmpty && frozen prog gH))
 
-/-- case: {"invs": [{"callee": [...], "big": bool, "dur": n, "pred": null | idx, "gate": [idx, …]?}, …], "rounds": [n₀, n₁, …]?}: the first n₀
-    invocations are made in a first event loop, the next n₁ in a second one started after the first has ended, …
-    (no "rounds": one event loop for all) -/
+/-- the call of invocation `j`: "fits": false — the arguments do not fit the callable; "sigfits": false — they do not fit what
+    `inspect.signature` reports about it (both default to true) -/
+def callOf (j : Json) : Call :=
+  { fits := (match jF j "fits" with | .bool b => b | _ => true), sigFits := (match jF j "sigfits" with | .bool b => b | _ => true) }
+
+/-- number of other descriptors the process holds in the event loop an invocation is made in ("held": one number per event loop) -/
+def heldOfInv (rounds held : List Nat) (i : Nat) : Nat :=
+  let rec go : List Nat → List Nat → Nat → Nat
+    | [], _, _ => 0
+    | n :: rs, hs, off => if i < off + n then hs.headD 0 else go rs hs.tail (off + n)
+  go rounds held 0
+
+/-- case: {"invs": [{"callee": [...], "big": bool, "dur": n, "pred": null | idx, "gate": [idx, …]?, "fits": bool?, "sigfits": bool?}, …],
+    "rounds": [n₀, n₁, …]?, "held": [h₀, h₁, …]?}: the first n₀ invocations are made in a first event loop, the next n₁ in a second one started
+    after the first has ended, … (no "rounds": one event loop for all); while loop k runs the process holds h_k other descriptors open -/
 def handle (c : Json) : Json :=
   let invs := jL (jF c "invs")
-  let cs : List (Callee × Bool) := invs.mapIdx (fun i j => (calleeOf i (jF j "callee"), jB (jF j "big")))
-  let sc : List Sched := invs.map (fun j => { dur := jN (jF j "dur"), pred := jOptN (jF j "pred"), gate := (jL (jF j "gate")).map jN })
+  let calls : List Call := invs.map callOf
+  -- "deco": the invocation is made through the @in_subprocess wrapper (else: calculate_in_subprocess); "async": coroutine function
+  let cs : List (Callee × Bool) := invs.mapIdx (fun i j =>
+    (childRuns (jB (jF j "deco")) (jB (jF j "async")) (callOf j) (calleeOf i (jF j "callee")) i, jB (jF j "big")))
+  -- "cancel": [idx, …] — the environment cancels the awaiting task once the coroutine is suspended and these invocations have finished
+  let cancelOf : Json → Option (List Nat) := fun j => match jF j "cancel" with | .arr a => some (a.toList.map jN) | _ => none
   let rounds : List Nat := match (jL (jF c "rounds")).map jN with | [] => [invs.length] | r => r
+  let held : List Nat := (jL (jF c "held")).map jN
+  let sc : List Sched := invs.mapIdx (fun i j => { dur := jN (jF j "dur"), pred := jOptN (jF j "pred"), gate := (jL (jF j "gate")).map jN,
+                                                    held := heldOfInv rounds held i, cancelAfter := cancelOf j })
   -- children that linger after their send: where does the system stand while they have not exited?
   let hold := (List.range invs.length).filter (fun i => match invs[i]? with | some j => jTag (jF j "callee") == "linger" | none => false)
   let (g, stall, frozenH) := runRounds sc cs hold (64 * (invs.length + 1)) rounds 0 (G.init []) [] false
@@ -72,10 +92,20 @@ def handle (c : Json) : Json :=
     ("stall", jArr (stall.map jNat)),
     ("loopFrozenWhileLingering", jBool frozenH),
     ("rounds", jNat rounds.length),
+    -- descriptor numbers: did any invocation get a read end at or above FD_SETSIZE
+    ("highFd", jBool (g.invs.any (fun l => l.st.rxHigh))),
+    ("cancelled", jArr (((List.range g.invs.length).filter (fun i => match g.invs[i]? with | some l => l.st.cancelled | none => false)).map jNat)),
+    -- per invocation: was everything it had (pipe end, reader, child) released
+    ("releasedEach", jArr (g.invs.map (fun l => jBool (l.st.released && l.rx.isNone && l.tx.isNone)))),
+    ("sigMismatch", jNat (calls.filter (fun k => k.fits && !k.sigFits)).length),
     ("stuck", jBool ((gsucc prog g).isEmpty && !g.invs.all (fun l => l.st.final)))]
   let spec := mkObj [
-    ("allowed", jArr (cs.map (fun c => jArr ((Spec.allowed c.1).map obsJ)))),
-    ("terminates", jBool Spec.mustTerminate), ("released", jBool Spec.mustRelease)]
+    ("allowed", jArr (invs.mapIdx (fun i j => jArr ((match cancelOf j with
+        | some _ => Spec.allowedCancelled
+        | none => Spec.allowedCall (callOf j).fits (calleeOf i (jF j "callee")) i).map obsJ)))),
+    ("terminates", jBool (Spec.mustTerminate (invs.mapIdx (fun i j => calleeOf i (jF j "callee"))))),
+    -- "leaves no open pipe ends and no un-reaped child process behind": demanded of every scenario, whatever the invocations observed
+    ("released", jBool true)]
   mkObj [("model", model), ("spec", spec)]
 
 end PedVerif.Drv.Subproc
